@@ -57,10 +57,10 @@ pub fn run_plan(plan: &Plan, trace: bool, want_fired: bool) -> (RunResult, Optio
     (res, out.trace)
 }
 
-fn arg<'a>(args: &'a [String], name: &str) -> Option<&'a str> {
+pub fn arg<'a>(args: &'a [String], name: &str) -> Option<&'a str> {
     args.iter().position(|a| a == name).and_then(|i| args.get(i + 1)).map(|s| s.as_str())
 }
-fn flag(args: &[String], name: &str) -> bool {
+pub fn flag(args: &[String], name: &str) -> bool {
     args.iter().any(|a| a == name)
 }
 
@@ -92,7 +92,20 @@ pub fn main(args: &[String]) -> i32 {
             if flag(args, "--history") {
                 crate::hist::with_hist(|h| {
                     for r in &h.recs {
-                        println!("ph{} c{} #{} [{}..{}] t={:.6}..{:.6} {:?} -> {:?}", r.phase, r.client, r.idx, r.inv_step, r.ret_step, r.inv_t as f64 / 1e9, r.ret_t as f64 / 1e9, r.op, r.res);
+                        if matches!(r.op, crate::plan::Op::Drain { .. }) { continue; }
+                        println!("ph{} c{} #{} [{}..{}] t={:.6}..{:.6} {} -> {:?}", r.phase, r.client, r.idx, r.inv_step, r.ret_step as i64, r.inv_t as f64 / 1e9, r.ret_t as i64 as f64 / 1e9, serde_json::to_string(&r.op).unwrap(), r.res);
+                    }
+                });
+            }
+            if flag(args, "--logs") {
+                crate::hist::with_hist(|h| {
+                    for (r, l) in &h.reader_logs {
+                        for (s, t, x) in l {
+                            println!("reader {} step {} t={:.6} seq={} key={} valid={} len={} ist={} new={} ph={:02x?}", r, s, *t as f64 / 1e9, x.seq, x.key, x.valid, x.len, x.ist, x.new, &x.ph[8..]);
+                        }
+                    }
+                    for c in &h.callbacks {
+                        println!("callback {:?}", c);
                     }
                 });
             }
@@ -106,6 +119,14 @@ pub fn main(args: &[String]) -> i32 {
             println!("{}", serde_json::to_string(&res).unwrap());
             // leave without running destructors of leaked tasks
             unsafe { libc::_exit(if res.violations.is_empty() { 0 } else { 1 }) }
+        }
+        Some("check") => crate::batch::check(args),
+        Some("replay") => crate::batch::replay(args),
+        Some("list") => {
+            for d in scen::all() {
+                println!("{} {}", d.prop, d.name);
+            }
+            0
         }
         _ => {
             eprintln!("usage: ddsim run --scenario S --seed N [--tier quick|thorough] [--plan file] [--trace] [--history] [--wire]");
